@@ -58,8 +58,13 @@ def run(tier, seed, replay=None):
     # literals in every position
     for _ in range(n):
         txt, v = w.integer()
-        emb = rng.choice(['top', 'list', 'quote', 'at', 'slice', 'bit', 'nested'])
-        if emb == 'top':
+        emb = rng.choice(['top', 'list', 'quote', 'at', 'slice', 'bit', 'nested', 'comment', 'comment_list'])
+        if emb == 'comment':
+            # a comment glued to the literal, running to the end of the text
+            probes.append(('int', f'{txt};the answer', lib.ser_py(v)))
+        elif emb == 'comment_list':
+            probes.append(('int', f'(a {txt};c\n)', f'( Y61 {lib.ser_py(v)} )'))
+        elif emb == 'top':
             probes.append(('int', txt, lib.ser_py(v)))
         elif emb == 'list':
             probes.append(('int', f'(a {txt} "s")', f'( Y61 {lib.ser_py(v)} S73 )'))
